@@ -132,6 +132,7 @@ theorem C06_send_only_where_permitted (sh : Shape) (i : StreamInputs) (tgt : Str
   | true => exact absurd (by simpa using hi) hwu
   | false => simpa [hi] using this
 
+-- @also H2.good_step
 /-- non-vacuity: the reference machine accepts the ordinary request/response life of a stream -/
 example : classify {} .SEND_HEADERS = .accept .OPEN ∧ (rfc .IDLE .SEND_HEADERS).contains (.accept .OPEN) = true := by decide
 
